@@ -80,6 +80,7 @@ type stFn struct {
 	collectorOps []string
 	sumRight  string // element type injected with Sum.inr ("ε", or "Unit" for token channels); "" = "ε"
 	chanVars  map[string]*stChan // local variables holding one of the stage's channels
+	rcount    int
 	needRet   bool   // the next statement must be a bare return (after `if catch { continue }`)
 	timed     bool   // sources family: sleep / recvSel / afterSel / forN are available
 	durNames  map[string]bool // int / time.Duration parameters usable as Nat values
@@ -408,8 +409,18 @@ func (fn *stFn) bindApply(lhs []ast.Expr, rhs ast.Expr, depth int) ([]string, bo
 		}, true
 	}
 	if fn.fKind == "F" && len(names) == 2 && len(c.Args) == 1 {
-		ap, _ := fn.applyCall(rhs)
 		out := []string{}
+		ap := ""
+		if a0, ok := c.Args[0].(*ast.Ident); ok && a0.Name == fn.stateVar && fn.stateVar != "" {
+			// the argument is the loop-carried variable: read it once, before anything is assigned
+			fn.usesF = true
+			fn.rcount++
+			r := fmt.Sprintf("r__%d", fn.rcount)
+			out = append(out, fmt.Sprintf("%slet %s := %s (← getS)", ind(depth), r, id(fn.fName)))
+			ap = r
+		} else {
+			ap, _ = fn.applyCall(rhs)
+		}
 		if names[0] != "_" {
 			if fn.fResTy == "Bool" {
 				fn.boolVars[names[0]] = true
@@ -1250,9 +1261,46 @@ func stage(fd *ast.FuncDecl) string {
 					}
 				}
 			}
+			// for _, c := range in { wg.Add(1); go w(c) }   |   … { go func(c <-chan A) { … }(c) }
+			if worker == nil && fn.variadic && src(x.X) == fn.inName && (len(x.Body.List) == 1 || len(x.Body.List) == 2) {
+				k, kok := x.Key.(*ast.Ident)
+				v, vok := x.Value.(*ast.Ident)
+				g, gok := x.Body.List[len(x.Body.List)-1].(*ast.GoStmt)
+				addOK := (len(x.Body.List) == 1 && addArg == "len("+fn.inName+")") ||
+					(len(x.Body.List) == 2 && src(x.Body.List[0]) == "wg.Add(1)" && addArg == "" && hasWG)
+				if kok && vok && gok && k.Name == "_" && x.Tok == token.DEFINE && addOK && len(g.Call.Args) == 1 && src(g.Call.Args[0]) == v.Name {
+					if h, ok := g.Call.Fun.(*ast.Ident); ok && closures[h.Name] != nil {
+						worker = closures[h.Name]
+						worker.workers = "perInput"
+						continue
+					}
+					if lit, ok := g.Call.Fun.(*ast.FuncLit); ok && lit.Type.Params != nil && len(lit.Type.Params.List) == 1 && len(lit.Type.Params.List[0].Names) == 1 {
+						if _, isChan, _ := chanElemOfType(lit.Type.Params.List[0].Type); isChan {
+							worker = &stWorker{body: lit.Body, param: lit.Type.Params.List[0].Names[0].Name, workers: "perInput"}
+							continue
+						}
+					}
+				}
+			}
 		case *ast.GoStmt:
 			if lit, ok := x.Call.Fun.(*ast.FuncLit); ok && len(x.Call.Args) == 0 {
 				b := lit.Body.List
+				// `defer close(ch)…; wg.Wait()` is the same closer as `wg.Wait(); close(ch)…` (deferred closes run LIFO)
+				if len(b) >= 2 && src(b[len(b)-1]) == "wg.Wait()" {
+					allDefer := true
+					re := []ast.Stmt{b[len(b)-1]}
+					for k := len(b) - 2; k >= 0; k-- {
+						d, ok := b[k].(*ast.DeferStmt)
+						if !ok {
+							allDefer = false
+							break
+						}
+						re = append(re, &ast.ExprStmt{X: d.Call})
+					}
+					if allDefer {
+						b = re
+					}
+				}
 				if len(b) > 0 && src(b[0]) == "wg.Wait()" {
 					if worker == nil || closerKind != "" {
 						sfail(st, "closer goroutine before the workers, or two closers")
